@@ -224,7 +224,7 @@ func callFunc(fn reflect.Value, cands ...any) []reflect.Value {
 
 // Mount builds the stub, endpoints, server and client of one service of a linked design.
 func Mount(design string, sp *spec.Spec, svc *spec.Service) (*Svc, error) {
-	s := &Svc{Design: design, Spec: sp, Service: svc, V: V{sp}, goName: map[string]string{}}
+	s := &Svc{Design: design, Spec: sp, Service: svc, V: V{S: sp}, goName: map[string]string{}}
 	dir := norm(svc.Name)
 	var syms, ssyms, csyms map[string]any
 	for _, e := range vreg.All() {
@@ -243,6 +243,7 @@ func Mount(design string, sp *spec.Spec, svc *spec.Service) (*Svc, error) {
 	if syms == nil {
 		return nil, fmt.Errorf("%s/%s: service package not registered", design, svc.Name)
 	}
+	s.V.Types = typeLookup(syms)
 	stub := syms["NewStub"].(func(vreg.Hook) any)(s.hook)
 	s.stub = reflect.ValueOf(stub)
 	for _, gm := range syms["GoMethods"].([]string) {
